@@ -434,6 +434,17 @@ func (r *cwRig) do(a Step) []string {
 			return []string{fmt.Sprintf("ACancel %d", a.C)}
 		}
 		return nil
+	case "cancelsend":
+		// the caller cancels and, without yielding, calls SendMsg: the send may observe the cancelled context and tear
+		// the registration down before the stream loop has noticed the cancellation (witness of C07_recv_refuted)
+		cs := r.stream(a.C)
+		if cs == nil || a.C >= len(r.cancels) {
+			return nil
+		}
+		r.cancels[a.C]()
+		err := cs.SendMsg(bv(payloadOf(a.B)))
+		r.ev(fmt.Sprintf("EvSendRet %d %s", a.C, optErr(err)))
+		return []string{fmt.Sprintf("ACancel %d", a.C), fmt.Sprintf("ASend %d %s", a.C, coqZ(a.B))}
 	case "tick":
 		time.Sleep(time.Duration(a.D) * time.Millisecond)
 		var acts []string
